@@ -356,7 +356,7 @@ impl World {
             if site == Site::Bind
                 && self.sc.faults.addr_in_use_pm > 0
                 && self.round_idx >= self.sc.faults.addr_in_use_from_round
-                && sock.is_some_and(|s| self.socks[s].kind == SockKind::Stream)
+                && sock.is_some_and(|s| self.socks[s].kind == SockKind::Stream || (self.sc.faults.addr_in_use_udp && self.socks[s].kind == SockKind::UdpSend && !self.socks[s].raw))
                 && self.tape.chance(self.sc.faults.addr_in_use_pm)
             {
                 errno = libc::EADDRINUSE;
